@@ -199,20 +199,30 @@ func (x *Exec) addMod(env *SpecEnv, m *ModSet, e Expr) {
 				}
 			}
 		}
-		base := x.eval(env, e.X)
-		ref := x.flatten(base.V)[0]
-		t := base.T.G
-		if p, ok := t.Underlying().(*types.Pointer); ok {
-			t = p.Elem()
-		}
 		if strings.HasPrefix(e.Sel, "$") {
+			base := x.eval(env, e.X)
+			ref := x.flatten(base.V)[0]
 			gf := x.ghostFieldDecl(base.T.G, e.Sel)
 			k := "G|" + gf.Pkg + "." + gf.Owner + "." + gf.Name
 			m.refs[k] = append(m.refs[k], ref)
 			return
 		}
-		k := "F|" + typeName(t) + "|" + e.Sel
-		m.refs[k] = append(m.refs[k], ref)
+		pl := x.exprPlace(env, e)
+		switch pl.Kind {
+		case PField:
+			name, _ := fieldPathName(pl.Root, pl.Path)
+			k := "F|" + typeName(pl.Root) + "|" + name
+			m.refs[k] = append(m.refs[k], pl.Ref)
+		case PElem:
+			name, _ := fieldPathName(pl.Root, pl.Path)
+			k := "E|" + typeName(pl.Root) + "|" + name
+			m.refs[k] = append(m.refs[k], pl.Ref)
+		case PBox:
+			k := "B|" + typeName(pl.Root)
+			m.refs[k] = append(m.refs[k], pl.Ref)
+		default:
+			sfail("modifies item does not denote a heap location")
+		}
 	case *ECall:
 		id, _ := e.Fun.(*EIdent)
 		if id == nil || len(e.Args) != 1 {
@@ -361,6 +371,14 @@ func (x *Exec) applyContract(fr *Frame, st *State, fc *FuncContract, callee *ssa
 	old := st.clone()
 	env := x.contractEnv(st, nil, fc, callee, sig, args)
 	callid := x.fresh("callid", SInt)
+	// function-level ghost constants of the callee are evaluated in the pre-state
+	ghostVals := map[string]SVal{}
+	for _, g := range fc.Ghosts {
+		v := x.evalClauseValue(env, g, key)
+		genv := *env
+		ghostVals[g.Name] = SVal{v.V, x.resolveType(&genv, g.T)}
+		env.vars[g.Name] = ghostVals[g.Name]
+	}
 	for _, c := range fc.Requires {
 		g := x.safeEvalBool(env, c, key)
 		x.check(st, "pre", c.Tags, pos, key+": "+c.Text, g)
@@ -404,6 +422,9 @@ func (x *Exec) applyContract(fr *Frame, st *State, fc *FuncContract, callee *ssa
 		penv.vars["result"] = SVal{rv, goT(rt)}
 	}
 	penv.vars["callid"] = SVal{VScalar{callid}, intT}
+	for n, v := range ghostVals {
+		penv.vars[n] = v
+	}
 	// ghost effects of trusted primitives
 	x.contractGhostEffects(st, penv, fc)
 	for _, c := range fc.Ensures {
@@ -783,4 +804,48 @@ func fr0params(x *Exec) []Value {
 		return x.auxFrames[0].params
 	}
 	return nil
+}
+
+// exprPlace resolves a field selection in a contract to the heap location it denotes.
+func (x *Exec) exprPlace(env *SpecEnv, e Expr) *Place {
+	sel, ok := e.(*ESel)
+	if !ok {
+		sfail("expected a field selection")
+	}
+	// base is itself a struct-valued field: recurse
+	if inner, ok := sel.X.(*ESel); ok {
+		bt := x.eval(env, inner)
+		if bt.T != nil && bt.T.G != nil {
+			if _, isStruct := bt.T.G.Underlying().(*types.Struct); isStruct {
+				p := x.exprPlace(env, inner)
+				st := p.Typ.Underlying().(*types.Struct)
+				path, _ := findField(st, sel.Sel)
+				if path == nil {
+					sfail("no field %s", sel.Sel)
+				}
+				for _, i := range path {
+					p = x.subPlace(p, i)
+				}
+				return p
+			}
+		}
+	}
+	base := x.eval(env, sel.X)
+	pt, ok := base.T.G.Underlying().(*types.Pointer)
+	if !ok {
+		sfail("field selection on a non-pointer in a modifies item")
+	}
+	st, ok := pt.Elem().Underlying().(*types.Struct)
+	if !ok {
+		sfail("field selection on a pointer to a non-struct")
+	}
+	path, _ := findField(st, sel.Sel)
+	if path == nil {
+		sfail("no field %s in %s", sel.Sel, pt.Elem())
+	}
+	p := x.ptrPlace(base.V, pt.Elem())
+	for _, i := range path {
+		p = x.subPlace(p, i)
+	}
+	return p
 }
